@@ -2,6 +2,8 @@
 
 package dicescript
 
+import "strings"
+
 func init() {
 	vHarnesses["VH_C08_src"] = VH_C08_src
 	vHarnesses["VH_C08_corpus"] = VH_C08_corpus
@@ -237,6 +239,81 @@ func vC08Verify(code []ByteCode, n int, what string) {
 	}
 }
 
+// vC08LoopJumps recovers the loops of one code body from its backward jumps
+// (a loop's closing jump is the last jump back to its head S; E is its
+// index) and counts the jumps that leave a loop for the instruction right
+// after its end (break) and the other jumps back to a loop's head (continue).
+func vC08LoopJumps(code []ByteCode, n int) (breaks, continues int) {
+	target := func(pc int) (int, bool) {
+		if code[pc].T != typeJmp {
+			return 0, false
+		}
+		off, ok := code[pc].Value.(IntType)
+		if !ok {
+			return 0, false
+		}
+		return pc + 1 + int(off), true
+	}
+	closing := map[int]int{} // head -> index of the closing jump
+	for pc := 0; pc < n && pc < len(code); pc++ {
+		if t, ok := target(pc); ok && t <= pc {
+			closing[t] = pc
+		}
+	}
+	for pc := 0; pc < n && pc < len(code); pc++ {
+		t, ok := target(pc)
+		if !ok {
+			continue
+		}
+		if t <= pc {
+			if closing[t] != pc {
+				continues++
+			}
+			continue
+		}
+		// innermost loop around pc
+		bestS, bestE := -1, -1
+		for sHead, e := range closing {
+			if sHead <= pc && pc < e && (bestS < 0 || sHead > bestS) {
+				bestS, bestE = sHead, e
+			}
+		}
+		if bestS >= 0 && t == bestE+1 {
+			breaks++
+		}
+	}
+	return
+}
+
+// vC08CountLoopJumps sums vC08LoopJumps over the program and its nested bodies.
+func vC08CountLoopJumps(vm *Context) (breaks, continues int) {
+	breaks, continues = vC08LoopJumps(vm.code, vm.codeIndex)
+	vWalkCode(vm.code, vm.codeIndex, 0, func(c ByteCode, pc int, n int) {
+		var code []ByteCode
+		var cn int
+		switch c.T {
+		case typePushFunction:
+			if v, ok := c.Value.(*VMValue); ok && v != nil {
+				if fd, ok := v.ReadFunctionData(); ok && fd.code != nil {
+					code, cn = fd.code, fd.codeIndex
+				}
+			}
+		case typePushComputed:
+			if v, ok := c.Value.(*VMValue); ok && v != nil {
+				if cd, ok := v.ReadComputed(); ok && cd.code != nil {
+					code, cn = cd.code, cd.codeIndex
+				}
+			}
+		}
+		if code != nil {
+			b, k := vC08LoopJumps(code, cn)
+			breaks += b
+			continues += k
+		}
+	})
+	return
+}
+
 func vC08VerifyAll(vm *Context) {
 	vC08Verify(vm.code, vm.codeIndex, "main")
 	vWalkCode(vm.code, vm.codeIndex, 0, func(c ByteCode, pc int, n int) {
@@ -278,9 +355,16 @@ var vC08Corpus = []string{
 	"i = 0; while i < 2 { i = i + 1; j = 0; while j < 2 { j = j + 1; continue }; 7 }; i",
 	"i = 0; while i < 2 { i = i + 1; j = 0; while j < 2 { j = j + 1; k = 0; while k < 2 { k = k + 1; break }; continue } }; i",
 	"func fn1() { i = 0; while i < 2 { i = i + 1; j = 0; while j < 2 { j = j + 1; break } } }; fn1()",
+	// break / continue of the outer loop written before, between and after inner loops
+	// (unconditional, so that the recorded block leak of 'if .. { break }' stays out of it)
+	"i = 0; while i < 5 { i = i + 1; break; j = 0; while j < 2 { j = j + 1 } }; i",
+	"i = 0; while i < 5 { i = i + 1; j = 0; while j < 2 { j = j + 1 }; continue; k = 0; while k < 2 { k = k + 1 }; break }; i",
+	"i = 0; while i < 5 { i = i + 1; continue; j = 0; while j < 2 { j = j + 1; continue; break }; k = 0; while k < 2 { k = k + 1; break }; break }; i",
+	"&v1 = `{% i = 0; while i < 3 { i = i + 1; break; j = 0; while j < 1 { j = j + 1 } } %}`; v1",
+	"func fn1() { i = 0; while i < 4 { i = i + 1; continue; j = 0; while j < 2 { j = j + 1; break }; break }; return i }; fn1()",
 }
 
-//vh:prop=C08 tiers=quick,thorough sigkeys=prog budget_s=600 bounds="39 programs composing every control construct (short-circuit, ternary, multi-arm, if/else-if, nested loops with break/continue, functions with early return, computed values, templates with statement holes, chained indexing/attributes, every dice family), verified as in VH_C08_src"
+//vh:prop=C08 tiers=quick,thorough sigkeys=prog budget_s=600 bounds="44 programs composing every control construct (short-circuit, ternary, multi-arm, if/else-if, nested loops with break/continue, functions with early return, computed values, templates with statement holes, chained indexing/attributes, every dice family), verified as in VH_C08_src; in addition the loops are recovered from the backward jumps and the number of jumps to the instruction after a loop's end / back to a loop's head must equal the number of break / continue statements written (a placeholder left unpatched is a jump to the next instruction)"
 func VH_C08_corpus() {
 	k := vChoice("prog", len(vC08Corpus))
 	vm := vNewVM()
@@ -289,5 +373,10 @@ func VH_C08_corpus() {
 		return
 	}
 	vReach("parsed")
+	// every break is a jump to the instruction after its own loop, every
+	// continue a jump to its own loop's head: none keeps the placeholder offset
+	b, c := vC08CountLoopJumps(vm)
+	vAssert(b == strings.Count(vC08Corpus[k], "break"), "every-break-jumps-past-the-end-of-its-own-loop")
+	vAssert(c == strings.Count(vC08Corpus[k], "continue"), "every-continue-jumps-to-the-head-of-its-own-loop")
 	vC08VerifyAll(vm)
 }
